@@ -72,14 +72,14 @@ ANCHORS = [
 ]
 FLOORS = {
     "quick": {"evaluations": 1000, "use_existing_checked": 300, "add_checked": 200, "setconf_decoded": 150,
-              "endpoint_targets_compared": 500, "fallback_sequences_judged": 150,
-              "fallback_attempts_checked": 250,
+              "endpoint_targets_compared": 500, "fallback_sequences_judged": 35,
+              "fallback_attempts_checked": 60, "fallback_outcomes_compared": 30,
               "reach:txtorcon.endpoints:_create_socks_endpoint": 400,
               "reach:txtorcon.endpoints:TorClientEndpoint.connect": 150,
               "reach:txtorcon.torconfig:TorConfig.create_socks_endpoint": 150},
     "thorough": {"evaluations": 20000, "use_existing_checked": 6000, "add_checked": 4000, "setconf_decoded": 3000,
-                 "endpoint_targets_compared": 10000, "fallback_sequences_judged": 1500,
-                 "fallback_attempts_checked": 2500,
+                 "endpoint_targets_compared": 10000, "fallback_sequences_judged": 250,
+                 "fallback_attempts_checked": 450, "fallback_outcomes_compared": 200,
                  "reach:txtorcon.endpoints:_create_socks_endpoint": 8000,
                  "reach:txtorcon.endpoints:TorClientEndpoint.connect": 1500},
 }
@@ -819,8 +819,9 @@ def cases_B(tier, rnd):
     if tier == "quick":
         seqs = list(itertools.product(OUTCOME_KINDS, repeat=2))
         for n, s in enumerate(seqs):
-            h = hosts[n % len(hosts)]
-            out.append({"w": "B", "host": h[0], "port": h[1], "seq": list(s) + ["refused"], "tls_kw": bool(n % 2)})
+            for hn, h in enumerate(hosts):
+                out.append({"w": "B", "host": h[0], "port": h[1], "seq": list(s) + ["refused"],
+                            "tls_kw": bool((n + hn) % 2)})
         for k in OUTCOME_KINDS:
             out.append({"w": "B", "host": "example.com", "port": 80, "seq": ["refused", "timeout", k, "success"],
                         "tls_kw": False})
